@@ -439,6 +439,7 @@ mod tests {
 /// Verification harness entry point (deterministic simulation). Compiled only with
 /// `--cfg ipa_verif`; the harness sources live outside this repository in `$IPA_VERIF_DIR`.
 #[cfg(all(test, ipa_verif))]
+#[allow(warnings, clippy::all, clippy::pedantic)]
 mod verif {
     include!(concat!(env!("IPA_VERIF_DIR"), "/harness/root.rs"));
 }
